@@ -60,11 +60,11 @@ CHECKS = {
         note="Address classification by line.fset and AddrGroup.__contains__ (user __eq__) are bounded only. " + TB),
     "C08": dict(
         level="other", design_ref="DESIGN.md 5/C08",
-        technique="contracts on Port._items_to_ports/_ports_to_items, the text path of the setters (numeric operands) and the range-string encoder, discharged by own VC "
-                  "generator (z3/cvc5); decoder and named operands by bounded contract checking",
+        technique="contracts on Port._items_to_ports/_ports_to_items, the text path of the setters (operands as numbers or port keywords) and the range-string encoder, discharged by own VC "
+                  "generator (z3/cvc5); decoder by bounded contract checking",
         text="Proof obligations (unbounded, all operands): Port._items_to_ports yields exactly the Cisco port set of each operator in ascending order; "
              "Port._ports_to_items is its inverse on every operator-shaped list (meaning, text, index safety; the neq removal loop by invariant); "
-             "Port._line__items_to_ints / Port.line.fset / items, ports and sport setters on numeric operands (refusals as the grammar requires; own value assigned back keeps "
+             "Port._line__items_to_ints / Port.line.fset / items, ports and sport setters on operands written as numbers or as keywords of the (assumed) table of the expression (refusals exactly as the grammar requires; own value assigned back keeps "
              "operator, operands and port set); helpers.ports_to_string encodes exactly the given set. Over an abstract text model (tokens as ghost lists). "
              "Bounded stand-in (not counted as proved): range-string decoder and codec round trip on all subsets of three 10-element universes with an independent decoder, "
              "and the setters natively (named ports included) on boundary operands with all view histories of length <= 2.",
